@@ -257,6 +257,45 @@ def w_poppred(case):
                      % (popbuild.label(spec), ns),
                      'expected': sorted(rest), 'observed': np.sort(z.flatten()),
                      'behaviour': 'poppred_process'})
+    # order-free check of the individuals: under a constant script (all base variates
+    # equal) individual s is a deterministic function of ITS covariate row; covariate
+    # sub-models are referred to the underlying model at vartheta_s
+    def const(stream, index, kind, n=None):
+        return 0.45 if kind == 'z' else (0.6 if kind == 'u' else 0)
+    with Seam(Script(base=const)):
+        Ac = np.asarray(ppm.sample(top, list(times), n_samples=ns, seed=the_seed(),
+                                   return_df=False, **kw), dtype=float)
+        cols = []
+        t0 = c0 = 0
+        for part in parts:
+            nt, ncv = rp.n_top(part, 1), rp.n_cov(part)
+            if part['kind'] == 'Cov':
+                under = popbuild.build(part['inner'], None)
+                th = np.real(rp.vartheta(part, top[t0:t0 + nt], c2[:, c0:c0 + ncv],
+                                         ns))
+                rows_ = []
+                for s_ in range(ns):
+                    eta = under.sample(th[s_].flatten(), n_samples=1, seed=5)
+                    rows_.append(np.asarray(under.compute_individual_parameters(
+                        th[s_].flatten(), eta), dtype=float)[0])
+                cols.append(np.array(rows_).reshape(ns, -1))
+            else:
+                sub = popbuild.build(part, None)
+                eta = sub.sample(top[t0:t0 + nt], n_samples=ns, seed=5)
+                cols.append(np.asarray(sub.compute_individual_parameters(
+                    top[t0:t0 + nt], eta), dtype=float).reshape(ns, -1))
+            t0 += nt
+            c0 += ncv
+        psi_c = np.hstack(cols)
+    exp_c = np.array([[psi_c[s_, 0] * tf(ts) + psi_c[s_, -1] * 0.45
+                       for s_ in range(ns)]]).transpose(0, 2, 1)
+    if Ac.shape != exp_c.shape or not tol.allclose(Ac, exp_c, 1e-8, 1e-9):
+        viol.append({'sub': 'individuals', 'message': 'population predictive '
+                     'individuals are not draws of the population model for their '
+                     'own covariate rows (constant-variate script; %s, '
+                     'n_samples=%d)' % (popbuild.label(spec), ns),
+                     'expected': exp_c, 'observed': Ac,
+                     'behaviour': 'poppred_individuals'})
     # table
     with Seam(Script(base=generic)):
         df = ppm.sample(top, list(times), n_samples=ns, seed=the_seed(),
@@ -494,6 +533,66 @@ def w_prior_pop(case):
     return {'transitions': 3, 'outcome': tol.rnd(y, 8), 'violations': viol}
 
 
+def w_param_map(case):
+    """Posterior predictive model with a parameter map (oracle shared with C18)."""
+    from . import c18
+    return c18.w_param_map(case)
+
+
+def w_reduced_source(case):
+    """A predictive model built from a mechanistic model that already has fixed
+    parameters keeps sampling the process at ITS fixed values, whatever is done to
+    the user's object (or to the predictive model) afterwards."""
+    viol = []
+    user = chi.ReducedMechanisticModel(RevealModel(3))
+    user.fix_parameters({'q1': 2.5})
+    pm = chi.PredictiveModel(user, [chi.GaussianErrorModel() for _ in range(3)])
+    times = [0.5, 1.25]
+    fixed = {'q1': 2.5}             # what the predictive model holds fixed
+
+    def expected():
+        theta = {'q0': 1.5, 'q1': None, 'q2': 3.5}
+        theta.update(fixed)
+        q = [theta['q0'], theta['q1'], theta['q2']]
+        return np.array([[q[j] * tf(t) for t in times] for j in range(3)])
+
+    def observe():
+        free = [n_ for n_ in ('q0', 'q2') if n_ not in fixed]
+        x = [{'q0': 1.5, 'q2': 3.5}[n_] for n_ in free] + [0.1, 0.1, 0.1]
+        with Seam(Script(base=zero_z)):
+            A = np.asarray(pm.sample(x, times, n_samples=1, seed=3,
+                                     return_df=False), dtype=float)[:, :, 0]
+        return A
+    ntr = 1
+    for op in [None] + list(case['ops']):
+        if op == 'user_refix':
+            user.fix_parameters({'q1': 9.0})
+        elif op == 'user_release':
+            user.fix_parameters({'q1': None})
+        elif op == 'user_fix_other':
+            user.fix_parameters({'q0': 7.0})
+        elif op == 'user_simulate':
+            n_free = user.n_parameters()
+            user.simulate([4.0 + k_ for k_ in range(n_free)], times)
+        elif op == 'pred_fix_other':
+            pm.fix_parameters({'q2': 5.5})
+            fixed['q2'] = 5.5
+        elif op == 'pred_refix':
+            pm.fix_parameters({'q1': 0.7})
+            fixed['q1'] = 0.7
+        ntr += 2
+        got, exp = observe(), expected()
+        if got.shape != exp.shape or not tol.allclose(got, exp):
+            viol.append({'sub': 'reduced_source', 'message': 'predictive model built '
+                         'from a mechanistic model with fixed parameters does not '
+                         'sample at its own fixed values after %s' % case['ops'],
+                         'expected': exp, 'observed': got,
+                         'behaviour': 'reduced_source'})
+            break
+    return {'transitions': ntr, 'outcome': key_of([case['ops'], tol.rnd(got)]),
+            'violations': viol}
+
+
 def w_pam(case):
     ns = case['n_samples']
     times = case['times']
@@ -578,7 +677,8 @@ def w_regimen(case):
 
 WORKERS = {'predictive': w_pred, 'population': w_poppred, 'posterior': w_posterior,
            'prior': w_prior, 'pam': w_pam, 'regimen': w_regimen,
-           'prior_population': w_prior_pop}
+           'prior_population': w_prior_pop, 'param_map': w_param_map,
+           'reduced_source': w_reduced_source}
 
 
 def build(tier, seed):
@@ -597,7 +697,9 @@ def build(tier, seed):
             rp.Comp([rp.Cov(rp.P(1), 1), rp.LN(1)]),
             # two covariate sub-models reading different covariate columns
             rp.Comp([rp.Cov(rp.G(1), 1), rp.Cov(rp.LN(1), 2)]),
-            rp.Comp([rp.Cov(rp.LN(1, False), 2), rp.Cov(rp.LN(1), 1)])]
+            rp.Comp([rp.Cov(rp.LN(1, False), 2), rp.Cov(rp.LN(1), 1)]),
+            # covariate models around multi-dimensional models
+            rp.Cov(rp.LN(2), 1), rp.Cov(rp.LN(2, False), 2), rp.Cov(rp.LN(2), 2)]
     popc = []
     for spec in pops:
         for ns in (1, 2, 3):
@@ -631,6 +733,12 @@ def build(tier, seed):
                                          'pooled_sigma': pooled})
     prior = [{'n_samples': ns, 'times': p, 'seed': sd}
              for ns in (1, 2, 3) for p in perms[:3] for sd in (3, 8)]
+    from . import c18 as _c18
+    pmaps = [c for c in _c18.build('quick', seed)['parts'][0].cases]
+    rs_ops = ['user_refix', 'user_release', 'user_fix_other', 'user_simulate',
+              'pred_fix_other', 'pred_refix']
+    red_src = [{'ops': list(seq)} for d in (1, 2, 3)
+               for seq in itertools.product(rs_ops, repeat=d)]
     prior_pop = []
     for spec in (rp.Comp([rp.LN(1), rp.LN(1)]), rp.Comp([rp.G(1), rp.P(1)]),
                  rp.Comp([rp.P(1), rp.LN(1, False)])):
@@ -661,6 +769,12 @@ def build(tier, seed):
                  'population structures x n_samples x previous n_ids x covariates'),
             Part('posterior', post, w_posterior, 'PosteriorPredictiveModel: every '
                  'tuple of (chain, draw) answers on a coded posterior'),
+            Part('param_map', pmaps, w_param_map,
+                 'PosteriorPredictiveModel: every injective parameter map (as C18)'),
+            Part('reduced_source', red_src, w_reduced_source,
+                 'predictive model built from a reduced mechanistic model: all '
+                 'sequences of <= 3 later operations on the user object / the '
+                 'predictive model'),
             Part('prior_population', prior_pop, w_prior_pop,
                  'PriorPredictiveModel around a PopulationPredictiveModel'),
             Part('prior', prior, w_prior, 'PriorPredictiveModel vs pints draws '
